@@ -491,6 +491,56 @@ theorem normTerms_linesT_plain (s : Str) (hb : ∀ c ∈ s, isBreak c = true →
           exact ih'
       · exact normTerms_consHead c _ ih'
 
+/-! ## source normalisation -/
+
+theorem joinNl_cons_cons_head (c : Char) (l : Str) (ls : List Str) :
+    joinNl ((c :: l) :: ls) = c :: joinNl (l :: ls) := by
+  cases ls <;> simp [joinNl]
+
+theorem joinNl_nil_cons (ls : List Str) (h : ls ≠ []) : joinNl ([] :: ls) = '\n' :: joinNl ls := by
+  cases ls with
+  | nil => exact absurd rfl h
+  | cons a ls => simp [joinNl]
+
+theorem joinNl_snoc_nil (ls : List Str) (h : ls ≠ []) : joinNl (ls ++ [[]]) = joinNl ls ++ ['\n'] := by
+  induction ls with
+  | nil => exact absurd rfl h
+  | cons a ls ih =>
+    cases ls with
+    | nil => simp [joinNl]
+    | cons b ls =>
+      have := ih (by simp)
+      simp only [List.cons_append, joinNl] at this ⊢
+      rw [this]; simp
+
+theorem map_fst_consHead (c : Char) (L : List (Str × Str)) (h : L ≠ []) :
+    ∃ l rest, L.map (·.1) = l :: rest ∧ (consHead c L).map (·.1) = (c :: l) :: rest := by
+  cases L with
+  | nil => exact absurd rfl h
+  | cons a L => obtain ⟨l, t⟩ := a; exact ⟨l, L.map (·.1), rfl, rfl⟩
+
+/-- On text whose only line boundary is `\n`, split-and-join removes exactly one final `\n`. -/
+theorem joinNl_splitlines_snoc_nl (t : Str) (hb : ∀ c ∈ t, isBreak c = true → c = '\n') :
+    joinNl (splitlines (t ++ ['\n'])) = t := by
+  induction t with
+  | nil => simp [splitlines, linesT, isBreak, joinNl]
+  | cons c t ih =>
+    have ih' := ih (fun x hx => hb x (by simp [hx]))
+    have hne : linesT (t ++ ['\n']) ≠ [] := linesT_ne_nil (by simp)
+    have hcr : c ≠ '\r' := by
+      intro h; subst h
+      exact absurd (hb '\r' (by simp) (by decide)) (by decide)
+    unfold splitlines at ih' ⊢
+    simp only [List.cons_append, linesT, hcr, if_false]
+    split
+    · rename_i hbr
+      have := hb c (by simp) hbr
+      subst this
+      simp only [List.map_cons]
+      rw [joinNl_nil_cons _ (by simpa using hne), ih']
+    · obtain ⟨l, rest, h1, h2⟩ := map_fst_consHead c _ hne
+      rw [h2, joinNl_cons_cons_head, ← h1, ih']
+
 /-! ## `ifuses` -/
 
 theorem parseLoop_ok {negate : Bool} {name body : Str} {segs : List Seg}
